@@ -104,6 +104,8 @@ def setup_dab(cx):
             return IterV(ty.len(items), lambda i: sub_view(Item.get(ty.at(items, _int(i)), 1)))
         nodes = Obj('NodeView')
         nodes.attrs['__call__'] = Builtin(lambda e: nodes, 'nodes()')
+        # iterating the node view yields the keys, in the same order as items() / values()
+        nodes.__dict__['iter'] = IterV(ty.len(items), lambda i: SV(AKey, Item.get(ty.at(items, _int(i)), 0)))
         nodes.attrs['items'] = Builtin(it_items, 'nodes.items')
         nodes.attrs['values'] = Builtin(it_values, 'nodes.values')
         graph = Obj('graph', nodes=nodes)
